@@ -24,3 +24,8 @@ pub proof fn lemma_zero_words{X}<const N: usize>(d: [{I}; N])
         lemma_wbit_zero{X}((i % {I.bits}) as {I});
     }
 }
+// uniform abstract accessors (shared vocabulary of generic code instantiated per implementation, e.g. BitIterator)
+impl<const N: usize> Bvf<{I}, N> {
+    pub open spec fn alen(&self) -> usize { self.length }
+    pub open spec fn abit(&self, i: int) -> bool { bit_at{X}(self.data@, i) }
+}
